@@ -18,7 +18,7 @@ GENERATORS = ['gen_attr_reserved']
 DISAGREEMENT_IS_TIE_ONLY = False
 MODELLED_FUNCS = {'sugar/core/meta.py': ['Attr.__init__', 'Attr.__getitem__', 'Attr.__setitem__', 'Attr.__delitem__', 'Attr.__getattr__',
                                          'Attr.copy', 'Attr.update', 'Attr.__iter__', 'Attr.__len__']}
-NO_SHRINK_KEYS = ['mapkind', 'obj', 'how', 'mk', 'sub', 'data']
+NO_SHRINK_KEYS = ['mapkind', 'obj', 'how', 'mk', 'sub', 'data', 'arg']
 
 # ----------------------------------------------------------------------------- literals
 
@@ -651,7 +651,7 @@ RULE = ('kind attr: histories of 1-12 mapping operations (item/attribute set, ge
         'len, keys, in, ==, nested list edits) at random paths of x = Meta(d) for random nested literals d; kind heap: programs of 2-12 '
         'steps over 4 variables (Meta(d), x.copy(), Meta(x.path), assignment/append of literals and of EXISTING sub-objects, del, '
         '"is" tests) compared with the heap model on the snapshots of all variables; extra: 800 (quick) / 30000 (thorough) random '
-        'histories of 1-12 public operations (168 operations on BioSeq, BioBasket, FeatureList, Feature, Location, Meta) on real objects '
+        'histories of 1-12 public operations (227 operations on BioSeq, BioBasket, FeatureList, Feature, Location, Meta) on real objects '
         'and their copies with deep structural snapshots, id()-reachability and write-footprint checks, plus re-wrap checks of every '
         'constructor / non-in-place operation; non-trivial = history that reaches a nested object or mixes operation kinds (attr), or '
         'contains copy / re-wrap / reference assignment (heap)')
@@ -684,8 +684,8 @@ LEVEL_NOTE = ('Proved for the models only; the models are tied to /repo by testi
               'Trusted: Coq kernel/vm_compute, copy.deepcopy and CPython reference semantics (deepcopy modelled as read-and-rebuild, exact '
               'for tree-shaped objects: a copy() of an internally shared object is outside the modelled domain, decided by tree_shaped), '
               'MutableMapping mixins, the harness. TESTED ONLY (not modelled in Coq): copy() isolation and the in-place / not-in-place '
-              'contracts of BioSeq, BioBasket, FeatureList, Feature, Location -- 800/30000 random histories of 168 public operations per '
-              'run (subjects also read from GFF -- feature and location meta._gff -- and from SJSON), 120/2000 exhaustive nested-edit sweeps (every reachable object of one side edited, both directions, depth up to 11), a 2777-case matrix of match/matchall/find_orfs/copy-chains over all reading-frame selections, 33 re-wrap checks, a '
+              'contracts of BioSeq, BioBasket, FeatureList, Feature, Location -- 800/30000 random histories of 227 public operations (secondary operands that are sugar objects are snapshotted too) per '
+              'run (subjects also read from GFF -- feature and location meta._gff -- and from SJSON), 120/2000 exhaustive nested-edit sweeps (every reachable object of one side edited, both directions, depth up to 11), a 5160-case matrix of match/matchall/find_orfs/copy-chains over all reading-frame selections, 33 re-wrap checks, a '
               '351-case matrix of mapping kinds x entry paths. Not proved: refinement for reference assignment / paths through list '
               'indices; the heap analogue of the "Attr never holds a plain dict" invariant. '
               'Domain excludes reserved keys R = dir(Meta) + __dunder__ names: open finding F20 (keys such as items/update/copy shadow '
@@ -739,6 +739,17 @@ def dsnap(o, light=False, _depth=0):
             continue
         fields.append([repr(k), dsnap(v, light, _depth + 1)])
     return ['obj', type(o).__name__, items, fields]
+
+
+def _sortlocs(sn):
+    """deepcopy rebuilds a LocationTuple through LocationTuple.__new__, which sorts the locations again: after an in-place edit of
+    Location.start/stop the copy may hold the same locations in another order (reported as a suspicious behaviour, not a violation of
+    the isolation property); compare LocationTuples as multisets here"""
+    if isinstance(sn, list):
+        sn = [_sortlocs(x) for x in sn]
+        if len(sn) == 4 and sn[0] == 'obj' and sn[1] == 'LocationTuple':
+            sn = [sn[0], sn[1], sorted(sn[2], key=lambda x: json.dumps(x, default=str)), sn[3]]
+    return sn
 
 
 def children(o):
@@ -1052,6 +1063,112 @@ op('basket', 'pure', 'read')(lambda rng, b, c: (b.ids, b.d, b.countall(), str(b)
                                                 len(b), b == c.fresh_basket(), repr(b)) and None)
 op('basket', 'pure', 'tofmtstr')(lambda rng, b, c: b.tofmtstr(rng.choice(['sjson', 'stockholm', 'gff'])) and None)
 
+
+# ---- operations with SECONDARY operands that are sugar objects (snapshotted like the receiver) ----------------------------
+
+def op2(kind, mode, name, mk):
+    def deco(call):
+        def f(rng, o, c):
+            return call(o, *mk(rng, o, c))
+        f.mk, f.call = mk, call
+        OPS.append((kind, mode, name, f))
+        return call
+    return deco
+
+
+def r_pattern(rng, s=None):
+    """a BioSeq used as a search pattern: upper / lower / mixed case, fresh or sharing with the searched sequence"""
+    from sugar import BioSeq
+    r = rng.random()
+    if s is not None and r < 0.15:
+        return s                                            # the searched sequence itself
+    if s is not None and r < 0.3 and len(s) >= 3:
+        a = rng.randint(0, len(s) - 3)
+        return s[a:a + 3]                                   # a slice: shares nested metadata and the feature list
+    p = BioSeq(rng.choice(['ATG', 'TAA', 'TTA', 'CAT', 'A', 'AC', 'GGGG']), id='pat', meta={'note': {'k': [1, {'z': 2}]}})
+    case = rng.choice(['upper', 'lower', 'lower', 'mixed'])
+    if case == 'lower':
+        p.str.lower()
+    elif case == 'mixed':
+        p[0] = p.data[0].lower()
+    return p
+
+
+def r_lower_seq(rng):
+    q = r_seq(rng)
+    if rng.random() < 0.6:
+        q.str.lower()
+    return q
+
+
+def r_basket_arg(rng, b=None):
+    from sugar import BioBasket
+    items = [r_lower_seq(rng) for _ in range(rng.randint(0, 2))]
+    if b is not None:
+        items += [x for x in b if rng.random() < 0.5]
+    return BioBasket(items, meta=r_metalit(rng, 1))
+
+
+def r_fts_arg(rng, f=None):
+    from sugar.core.fts import FeatureList
+    items = [r_feature(rng, 20, rng.choice(['s1', 's2'])) for _ in range(rng.randint(0, 2))]
+    if f is not None:
+        items += [x for x in f if rng.random() < 0.5]
+    return FeatureList(items)
+
+
+_RF = lambda rng: _rf(rng.choice(PURE_RFS))
+op2('seq', 'pure', 'match_bioseq', lambda rng, s, c: (r_pattern(rng, s), _RF(rng), rng.random() < 0.4))(
+    lambda s, p, rf, ma: s.match(p, rf=rf, matchall=ma))
+op2('seq', 'pure', 'matchall_bioseq', lambda rng, s, c: (r_pattern(rng, s), _RF(rng)))(lambda s, p, rf: s.matchall(p, rf=rf))
+op2('seq', 'pure', 'find_orfs_bioseq', lambda rng, s, c: (r_pattern(rng, s), r_pattern(rng, s), _RF(rng)))(
+    lambda s, p1, p2, rf: s.find_orfs(rf=rf, start=p1, stop=p2, need_start='never', need_stop=False))
+op2('seq', 'pure', 'cane_match_bioseq', lambda rng, s, c: (r_pattern(rng, s),))(
+    lambda s, p: __import__('sugar.core.cane', fromlist=['match']).match(s, p, rf=None))
+op2('basket', 'pure', 'match_bioseq', lambda rng, b, c: (r_pattern(rng, b[0] if len(b) else None), _RF(rng), rng.random() < 0.4))(
+    lambda b, p, rf, ma: b.match(p, rf=rf, matchall=ma))
+op2('basket', 'pure', 'find_orfs_bioseq', lambda rng, b, c: (r_pattern(rng), r_pattern(rng)))(
+    lambda b, p1, p2: b.find_orfs(start=p1, stop=p2, need_start='never', need_stop=False))
+op2('seq', 'pure', 'add_bioseq', lambda rng, s, c: (r_lower_seq(rng),))(lambda s, q: s + q)
+op2('seq', 'pure', 'radd_bioseq', lambda rng, s, c: (r_lower_seq(rng),))(lambda s, q: q + s)
+op2('seq', 'pure', 'eq_bioseq', lambda rng, s, c: (rng.choice([r_lower_seq(rng), s.copy()]),))(lambda s, q: (s == q, q == s, s != q) and None)
+op2('seq', 'self', 'iadd_bioseq', lambda rng, s, c: (r_lower_seq(rng),))(lambda s, q: _op.iadd(s, q))
+op2('seq', 'pure', 'count_bioseq', lambda rng, s, c: (r_pattern(rng),))(
+    lambda s, p: (s.str.count(p), s.str.find(p), s.str.startswith(p), s.str.split(p)) and None)
+op2('seq', 'self', 'replace_bioseq', lambda rng, s, c: (r_pattern(rng), r_pattern(rng)))(lambda s, p, q: s.str.replace(p, q))
+op2('seq', 'pure', 'index_feature_arg', lambda rng, s, c: (r_feature(rng, max(len(s), 2), s.id),))(lambda s, ft: s[ft])
+op2('seq', 'pure', 'index_feature_arg_update', lambda rng, s, c: (r_feature(rng, max(len(s), 2), s.id),))(
+    lambda s, ft: s.sl(update_fts=True)[ft])
+op2('seq', 'pure', 'index_location_arg', lambda rng, s, c: (r_loc(rng, max(len(s), 2)),))(lambda s, l: s[l])
+op2('seq', 'pure', 'index_own_feature', lambda rng, s, c: (rng.choice(list(s.fts)),))(lambda s, ft: s.sl(gap='-')[ft])
+op2('seq', 'mut', 'add_fts_arg', lambda rng, s, c: (r_fts_arg(rng),))(lambda s, fl: s.add_fts(fl))
+op2('seq', 'mut', 'set_fts_arg', lambda rng, s, c: (r_fts_arg(rng),))(lambda s, fl: setattr(s, 'fts', fl))
+op2('seq', 'mut', 'setitem_bioseq', lambda rng, s, c: (r_pattern(rng),))(lambda s, p: s.__setitem__(slice(0, 1), p))
+op2('basket', 'pure', 'index_feature_arg', lambda rng, b, c: (r_feature(rng, 8, 's1'),))(lambda b, ft: b[:, ft])
+op2('basket', 'pure', 'index_location_arg', lambda rng, b, c: (r_loc(rng, 8),))(lambda b, l: b[:2, l])
+for _n in ('add', 'and_', 'or_', 'sub', 'xor', 'eq'):
+    op2('basket', 'pure', _n + '_basket_arg', lambda rng, b, c: (r_basket_arg(rng, b),))(lambda b, a, _n=_n: getattr(_op, _n)(b, a))
+    op2('fts', 'pure', _n + '_fts_arg', lambda rng, f, c: (r_fts_arg(rng, f),))(lambda f, a, _n=_n: getattr(_op, _n)(f, a))
+for _n in ('iand', 'ior', 'isub', 'ixor', 'iadd'):
+    op2('basket', 'self', _n + '_basket_arg', lambda rng, b, c: (r_basket_arg(rng, b),))(lambda b, a, _n=_n: getattr(_op, _n)(b, a))
+    op2('fts', 'self', _n + '_fts_arg', lambda rng, f, c: (r_fts_arg(rng, f),))(lambda f, a, _n=_n: getattr(_op, _n)(f, a))
+op2('basket', 'pure', 'radd_list', lambda rng, b, c: ([r_lower_seq(rng)],))(lambda b, l: l + b)
+op2('basket', 'mut', 'append_arg', lambda rng, b, c: (r_lower_seq(rng),))(lambda b, q: b.append(q))
+op2('basket', 'mut', 'extend_arg', lambda rng, b, c: (r_basket_arg(rng),))(lambda b, a: b.extend(a))
+op2('basket', 'mut', 'setitem_seq_arg', lambda rng, b, c: (r_lower_seq(rng),))(lambda b, q: b.__setitem__(0, q))
+op2('basket', 'mut', 'setitem_slice_arg', lambda rng, b, c: (r_basket_arg(rng),))(lambda b, a: b.__setitem__(slice(0, 1), a))
+op2('basket', 'mut', 'set_fts_arg', lambda rng, b, c: (r_fts_arg(rng),))(lambda b, fl: setattr(b, 'fts', fl))
+op2('basket', 'mut', 'add_fts_arg', lambda rng, b, c: (r_fts_arg(rng),))(lambda b, fl: b.add_fts(fl))
+op2('fts', 'mut', 'extend_arg', lambda rng, f, c: (r_fts_arg(rng),))(lambda f, a: f.extend(a))
+op2('fts', 'mut', 'append_arg', lambda rng, f, c: (r_feature(rng, 30, 's1'),))(lambda f, ft: f.append(ft))
+op2('fts', 'pure', 'construct_from', lambda rng, f, c: ())(lambda f: type(f)(f))
+op2('feature', 'pure', 'overlaps_arg', lambda rng, t, c: (r_feature(rng, 30, 's1'),))(lambda t, u: (t.overlaps(u), t == u, t < u) and None)
+op2('feature', 'mut', 'set_locs_arg', lambda rng, t, c: ([r_loc(rng, 30, '+'), r_loc(rng, 30, '+')],))(lambda t, ls: setattr(t, 'locs', ls))
+op2('meta', 'mut', 'update_attr_arg', lambda rng, m, c: (r_attr(rng),))(lambda m, a: m.update(a))
+op2('meta', 'mut', 'setitem_attr_arg', lambda rng, m, c: (r_attr(rng),))(lambda m, a: m.__setitem__('shared_arg', a))
+op2('meta', 'pure', 'eq_attr_arg', lambda rng, m, c: (rng.choice([r_attr(rng), m.copy(), dict(m)]),))(lambda m, a: (m == a, a == m) and None)
+op2('meta', 'pure', 'rewrap_arg', lambda rng, m, c: ())(lambda m: (type(m)(m), dict(m)) and None)
+
 OPS_BY_KIND = {}
 for _k, _m, _n, _f in OPS:
     OPS_BY_KIND.setdefault(_k, []).append((_m, _n, _f))
@@ -1139,9 +1256,18 @@ def run_history(rng, kind, nops, cov, want_trace=False):
         sh_before = {i: shallow(o) for i, o in reg.items()}
         allowed = set(reach(recv))
         label = '%s: %s.%s [%s]' % (side, k, name, mode)
+        args, arg_before = (), []
+        if hasattr(f, 'mk'):                 # operation with secondary operands: build them first, snapshot ALL operands
+            try:
+                args = tuple(f.mk(rng, recv, ctx))
+            except Exception:
+                snaps[side] = dsnap(roots[side])     # building the operands may read lazily created containers (seq.fts)
+                continue
+            arg_before = [dsnap(a, light=True) for a in args]
+            label += ' args=(%s)' % ', '.join(type(a).__name__ for a in args)
         trace.append(label)
         try:
-            res = f(rng, recv, ctx)
+            res = f.call(recv, *args) if hasattr(f, 'mk') else f(rng, recv, ctx)
             ok = True
         except Exception as e:
             res, ok = None, False
@@ -1158,6 +1284,14 @@ def run_history(rng, kind, nops, cov, want_trace=False):
             return 'in-place operation %s did not return the receiver' % label, trace
         if mode == 'pure' and dsnap(recv, light=True) != before_light:
             return 'operation %s is documented as not in-place but changed its receiver' % label, trace
+        # (2b) secondary operands: a not-in-place operation changes none of its operands; an in-place operation changes its
+        #      receiver only (an operand that shares objects with the receiver may change with it)
+        for ai, (a, b4) in enumerate(zip(args, arg_before)):
+            cov['hist_secondary_operands'] = cov.get('hist_secondary_operands', 0) + 1
+            if mode != 'pure' and (set(reach(a)) & allowed):
+                continue
+            if dsnap(a, light=True) != b4:
+                return ('operation %s changed its operand #%d (%s): %r' % (label, ai + 1, type(a).__name__, a))[:600], trace
         # (3) footprint: every object whose one-level state changed was reachable from the receiver
         for i, o in reg.items():
             if i not in allowed and shallow(o) != sh_before[i]:
@@ -1169,7 +1303,7 @@ def run_history(rng, kind, nops, cov, want_trace=False):
             if common:
                 o = reach(recv)[sorted(common)[0]]
                 return 'operation %s: the copy shares a mutable %s object with its operand: %r' % (label, type(o).__name__, o), trace
-            if dsnap(res, light=True) != dsnap(recv, light=True):
+            if _sortlocs(dsnap(res, light=True)) != _sortlocs(dsnap(recv, light=True)):
                 return 'operation %s: the copy is not structurally equal to its operand' % label, trace
         if ok and mode == 'pure':
             for r in (res if isinstance(res, (list, tuple)) and kind_of(res) is None else [res]):
@@ -1325,10 +1459,65 @@ def impl_pure(case):
         o = mk(1, case['data'][0])
     else:
         o = BioBasket([mk(i, d) for i, d in enumerate(case['data'])], meta={'b': {'c': 1}})
-    before = dsnap(o, light=True)
     call = case['call']
+    arg, arg_name = None, case.get('arg')
+    first = o if case['obj'] == 'seq' else (o[0] if len(o) else None)
+    if arg_name:
+        from sugar.core.fts import Feature, FeatureList, Location
+        if arg_name.startswith('pat_'):
+            if arg_name == 'pat_self':
+                arg = first
+            elif arg_name == 'pat_slice':
+                arg = first[0:3]
+            else:
+                arg = BioSeq(case.get('sub', 'ATG'), id='pat', meta={'note': {'k': [1, {'z': 2}]}})
+                if arg_name == 'pat_lower':
+                    arg.str.lower()
+                elif arg_name == 'pat_mixed':
+                    arg.data = arg.data[:1].lower() + arg.data[1:]
+        elif arg_name in ('seq_lower', 'seq_upper'):
+            arg = mk(7, 'ACGTTTA')
+            if arg_name == 'seq_lower':
+                arg.str.lower()
+        elif arg_name == 'basket':
+            arg = BioBasket([mk(8, 'ACGTTTA').str.lower(), mk(9, case['data'][0])], meta={'q': {'r': [1]}})
+        elif arg_name == 'feature':
+            arg = c_feature(1, 6)
+        elif arg_name == 'location':
+            arg = Location(1, 5, '-', meta={'g': {'phase': [0]}})
+        elif arg_name == 'fts':
+            arg = FeatureList([c_feature(1, 6), c_feature(0, 7)])
+        else:
+            raise RuntimeError(arg_name)
+    before = dsnap(o, light=True)
+    arg_before = dsnap(arg, light=True)
     try:
-        if call == 'match':
+        if arg_name and call in ('match', 'matchall'):
+            o.match(arg, rf=_rf(case['rf']), matchall=(call == 'matchall') or case.get('matchall', False))
+        elif call == 'cane_match':
+            from sugar.core.cane import match as _m
+            _m(first, arg, rf=None)
+        elif call == 'find_orfs_start':
+            o.find_orfs(rf=_rf(case['rf']), start=arg)
+        elif call == 'find_orfs_stop':
+            o.find_orfs(rf=_rf(case['rf']), stop=arg, need_start='never')
+        elif call in ('add', 'and_', 'or_', 'sub', 'xor', 'eq', 'ne'):
+            getattr(_op, call)(o, arg)
+        elif call == 'radd':
+            arg + o
+        elif call == 'str_count':
+            o.str.count(arg), o.str.find(arg)
+        elif call == 'index':
+            o[arg] if case['obj'] == 'seq' else o[:, arg]
+        elif call == 'index_update_fts':
+            o.sl(update_fts=True)[arg] if case['obj'] == 'seq' else o.sl(update_fts=True)[:, arg]
+        elif call == 'add_fts':
+            o.add_fts(arg)
+        elif call == 'set_fts':
+            o.fts = arg
+        elif call == 'construct':
+            type(o)(o), BioBasket([o] if case['obj'] == 'seq' else o)
+        elif call == 'match':
             o.match(case['sub'], rf=_rf(case['rf']), matchall=case['matchall'])
         elif call == 'matchall':
             o.matchall(case['sub'], rf=_rf(case['rf']))
@@ -1352,6 +1541,12 @@ def impl_pure(case):
     except Exception:
         pass
     after = dsnap(o, light=True)
+    if arg_name and dsnap(arg, light=True) != arg_before:
+        return '%s.%s(%s) changed its secondary operand (%s): now %r' % (
+            case['obj'], call, ', '.join('%s=%r' % (k, case[k]) for k in ('arg', 'sub', 'rf', 'matchall') if k in case),
+            type(arg).__name__, getattr(arg, 'data', arg))
+    if case.get('mut_recv'):
+        return None
     if after != before:
         def res(x):
             return x.data if case['obj'] == 'seq' else [q.data for q in x]
@@ -1408,6 +1603,31 @@ def pure_matrix(tier):
                                   'need_stop': ns != 'never'})
             for call in ('copy_rc', 'copy_translate', 'countall', 'tostr') + (('slice_rc',) if obj == 'seq' else ()):
                 cases.append({'kind': 'pure', 'obj': obj, 'data': data, 'call': call})
+            if not data or len(data[0]) < 6:
+                continue
+            # secondary operands that are sugar objects: every operand is snapshotted
+            for pat in ('pat_upper', 'pat_lower', 'pat_mixed', 'pat_self', 'pat_slice'):
+                for sub in ('ATG', 'TTA', 'A'):
+                    for rf in ('fwd', 'bwd', 'both', -1, [0, -2]):
+                        for call in ('match', 'matchall', 'find_orfs_start', 'find_orfs_stop'):
+                            cases.append({'kind': 'pure', 'obj': obj, 'data': data, 'call': call, 'arg': pat, 'sub': sub, 'rf': rf,
+                                          'matchall': False})
+                    cases.append({'kind': 'pure', 'obj': obj, 'data': data, 'call': 'cane_match', 'arg': pat, 'sub': sub})
+                    if obj == 'seq':
+                        cases.append({'kind': 'pure', 'obj': obj, 'data': data, 'call': 'str_count', 'arg': pat, 'sub': sub})
+            if obj == 'seq':
+                for a in ('seq_lower', 'seq_upper'):
+                    for call in ('add', 'radd', 'eq', 'ne'):
+                        cases.append({'kind': 'pure', 'obj': obj, 'data': data, 'call': call, 'arg': a})
+            else:
+                for call in ('add', 'and_', 'or_', 'sub', 'xor', 'eq', 'ne'):
+                    cases.append({'kind': 'pure', 'obj': obj, 'data': data, 'call': call, 'arg': 'basket'})
+            for a in ('feature', 'location'):
+                for call in ('index', 'index_update_fts'):
+                    cases.append({'kind': 'pure', 'obj': obj, 'data': data, 'call': call, 'arg': a})
+            for call in ('add_fts', 'set_fts'):
+                cases.append({'kind': 'pure', 'obj': obj, 'data': data, 'call': call, 'arg': 'fts', 'mut_recv': True})
+            cases.append({'kind': 'pure', 'obj': obj, 'data': data, 'call': 'construct'})
     return cases
 
 
